@@ -10,6 +10,7 @@
 import io
 import itertools
 import random
+import re
 
 from .pairing import describe
 from .pipeline import parse_proc, strip_ansi, request
@@ -184,6 +185,24 @@ def run(ctx):
                 ctx.violation('C14/process-column/after-another-dump', 'after another dump was listed with the same object and code table, line %d reads %r; a new object prints %r'
                               % (d_, got_[d_] if d_ < len(got_) else None, want_[d_] if d_ < len(want_) else None),
                               {'kind': 'pipeline', 'file_hex': db.blob.hex(), 'stream': describe(wb, db.stream)})
+        # callstack lines name the thread that WROTE the sample (the thread of its START record) - and so its process - whatever
+        # thread a sampler record inside the sample describes
+        try:
+            pk = PyKdebugParser()
+            by_ts = {}
+            for e_ in pk.kevents(io.BytesIO(dump.blob)):
+                by_ts.setdefault(e_.timestamp, set()).add(e_.tid)
+            pc_ = PyKdebugParser()
+            pc_.show_timestamp, pc_.show_tid, pc_.show_process = True, True, False
+            for ln in pc_.formatted_callstacks(io.BytesIO(dump.blob)):
+                m_ = re.match(r'^(\d+) +(\d+) *$', str(ln).split('\n')[0])
+                if m_ and int(m_.group(1)) in by_ts and len(by_ts[int(m_.group(1))]) == 1 and int(m_.group(2)) not in by_ts[int(m_.group(1))]:
+                    ctx.violation('C14/callstack-thread-column', 'the callstack of the sample written at %s by thread %s is listed under thread %s'
+                                  % (m_.group(1), sorted(by_ts[int(m_.group(1))]), m_.group(2)),
+                                  {'kind': 'pipeline', 'file_hex': dump.blob.hex(), 'stream': describe(w, dump.stream)})
+        except Exception as ex:
+            ctx.violation('C14/raised/%s' % type(ex).__name__, 'formatted_callstacks raised %r' % ex,
+                          {'kind': 'pipeline', 'file_hex': dump.blob.hex(), 'stream': describe(w, dump.stream)})
         # process column parsed from the formatted lines, identities from a parallel traces() run
         p = PyKdebugParser()
         r, _ = request(w, p, dump, 'traces')
